@@ -438,6 +438,36 @@ struct RandomEvaluatorImpl<BundleBase<Derived>>
 };
 
 /**
+ * @brief Assignment assert specialization for Bundle objects.
+ * Each element validates its own segment of the assigned data
+ * (e.g. quaternions must be normalized).
+ */
+template <typename Derived>
+struct AssignmentEvaluatorImpl<BundleBase<Derived>>
+{
+  template <typename T>
+  static void run_impl(const T & data)
+  {
+    run_impl(data, internal::make_intseq_t<BundleBase<Derived>::BundleSize>{});
+  }
+
+  template <typename T, int ... _Idx>
+  static void run_impl(const T & data, internal::intseq<_Idx...>)
+  {
+    // cxx11 "fold expression"
+    auto l = {((AssignmentEvaluator<
+      typename traits<typename BundleBase<Derived>::template Element<_Idx>>::Base
+    >().run(
+      data.template segment<BundleBase<Derived>::template Element<_Idx>::RepSize>(
+        std::get<_Idx>(traits<Derived>::RepSizeIdx)
+      )
+    )), 0) ...};
+    static_cast<void>(l);  // compiler warning
+    MANIF_UNUSED_VARIABLE(data);
+  }
+};
+
+/**
  * @brief Cast specialization for Bundle objects.
  * Cast element-wise so that each element's own cast applies
  * (e.g. the re-normalization of quaternions in the new scalar type).
